@@ -105,3 +105,8 @@ Fixpoint unitv (k n : nat) (d : Z) : list Z :=
   | O => []
   | S n' => match k with O => d :: repeat 0 n' | S k' => 0 :: unitv k' n' d end
   end.
+
+(* strictly monotonic in either direction; smallest / largest end *)
+Definition mono (xs : list Z) : Prop := asc xs = true \/ desc xs = true.
+Definition lo_of (xs : list Z) : Z := Z.min (hd 0 xs) (last xs 0).
+Definition hi_of (xs : list Z) : Z := Z.max (hd 0 xs) (last xs 0).
